@@ -207,7 +207,7 @@ def h_msgpack(t, part):
                 calls.append((kind, sid, a))
         return f
     # the frame: a msgpack value chosen by the tape
-    shape = t.choice(4)
+    shape = t.choice(5)
     keys = []
     if shape == 0:
         present = [t.bool() for _ in range(4)]
@@ -226,14 +226,22 @@ def h_msgpack(t, part):
     elif shape == 1:
         value = [7, [2, '/', ['ev']], 'text', None][t.choice(4)]
         decodable = False
+    huge = t.choice(4) if shape == 4 else 0
     with notrace():
         if shape in (0, 1):
             frame = msgpack.dumps(value)
         elif shape == 2:
             frame = msgpack.dumps({'type': 2, 'nsp': '/', 'data': ['ev', 1]})[:-2]      # truncated
             decodable = False
-        else:
+        elif shape == 3:
             frame = b'\xc1\xff\x00'                                                      # never-used msgpack byte
+            decodable = False
+        else:
+            # a few bytes that declare a huge container (array32 / map32 / bin32 headers): the frame is garbage, and the
+            # memory taken while finding that out must be in proportion to the bytes received. This one is a concrete
+            # measurement (tracemalloc), not a solver result: the allocation happens inside the msgpack C extension.
+            frame = [b'\xdd\x00\x40\x00\x00', b'\xdf\x00\x40\x00\x00', b'\xc6\x00\x40\x00\x00',
+                     b'\x92\x02\xdd\x00\x40\x00\x00'][huge]
             decodable = False
         w = worlds.SWorld(asyncio_, async_handlers=False, P='msgpack')
         for ns in ('/', '/a'):
@@ -250,8 +258,20 @@ def h_msgpack(t, part):
         del calls[:]
         before = (sorted(map(str, w.s.rooms(b1))), len(w.frames('e1')))
         sender = 'e9' if part['stranger'] else 'e0'       # a transport that never joined anything / the offender
+        import tracemalloc
+        measure = shape == 4
+        if measure:
+            tracemalloc.start()
+            tracemalloc.reset_peak()
+            base = tracemalloc.get_traced_memory()[0]
         w.recv(sender, frame)
         w.finish()
+        if measure:
+            peak = tracemalloc.get_traced_memory()[1] - base
+            tracemalloc.stop()
+            if peak > 1 << 20:
+                return Fail('hostile:memory-in-proportion-to-declared-count:msgpack', 'a frame of %d bytes (%r) made the server '
+                            'allocate %d bytes while decoding it' % (len(frame), frame, peak))
         if not decodable and calls:
             return Fail('hostile:undecodable-input-reached-handler:msgpack', 'frame %r (%r) from %s ran %r' % (
                 frame, value if shape < 2 else 'garbage', sender, calls))
@@ -405,7 +425,7 @@ META = dict(
                      'with bystander events; arbitrary frames <= 10 code points; id run of '
                      '98 concrete digits + 4 symbolic characters; count run of 9 + 5',
             'thorough': '2 full-palette / 3 reduced-palette offender frames; frames <= 12; digit runs 97..99 / 8..10'},
-    outside=['the offender\'s own connection', 'the msgpack and JSON parsers themselves (C extensions / stdlib; msgpack '
+    outside=['memory taken inside the msgpack C extension is not a solver question: four concrete frames that declare 4 Mi-element containers are measured with tracemalloc (auxiliary concrete probe, stated as such)', 'the offender\'s own connection', 'the msgpack and JSON parsers themselves (C extensions / stdlib; msgpack '
              'frames are concrete values chosen by the solver from a palette of maps with missing / wrong-typed keys, '
              'non-maps and garbage)',
              'payloads outside the palette'],
